@@ -1,5 +1,5 @@
 # replay of a bounded stand-in violation: re-run native/c01_backends.py
 import sys
-print('Catstate(0.8, 0.4, p=0.5); Rgate; BSgate on bosonic/complex: quadrature moments / photon numbers [0.034, -0.2192, -0.3385, -0.1374, 0.0847, 0.2515, 0.3744, 0.2656] differ from the fock simulator [0.2192, -0.034, -0.2602, 0.2554, 0.0847, -0.13, 0.3744, 0.2656]')
+print("S2gate(0.25, 0.5).H | (q[1], q[0]) of 3 on fock: ('quad', 0, 0.0) = [0.0565, 0.6942], the documented action gives [-0.0002, 0.8147]")
 print('REPLAY-VIOLATION')
 sys.exit(1)
